@@ -111,3 +111,21 @@ pub fn vzeroed64() -> (r: Vec<u8>) ensures r@.len() == 64, { unimplemented!() }
 // rng().fill_bytes(&mut salt): any bytes
 #[verifier::external_body]
 pub fn vrng_fill_salt(salt: &mut Vec<u8>) ensures final(salt)@.len() == old(salt)@.len(), { unimplemented!() }
+
+// ---- ROUND TRIP over the contracts of the real Key::encrypt_data / Key::decrypt_data (checked composition; AEAD correctness
+//      assumed): what decrypt_data returns for the output of encrypt_data is the plaintext
+pub fn lemma_encrypt_decrypt_round_trip(key: &Key, data: &[u8]) -> (r: Option<Vec<u8>>)
+    requires data@.len() + 32 <= usize::MAX,
+    ensures r matches Some(p) ==> p@ == data@,
+{
+    match key.encrypt_data(data) {
+        Ok(c) => {
+            proof {
+                axiom_aead_correct(key.0, c@.subrange(0, 16), data@);
+                assert(c@.subrange(16, c@.len() as int) =~= c@.subrange(16, 16 + data@.len() as int) + c@.subrange(16 + data@.len() as int, c@.len() as int));
+            }
+            match key.decrypt_data(c.as_slice()) { Ok(p) => Some(p), Err(_) => None }
+        }
+        Err(_) => None,
+    }
+}
